@@ -16,8 +16,11 @@
        "Patterns can appear before a chain or within a chain"); it evaluates to Ok / [].
    R2  A full tuple pattern `N[l: p, ..]` is exact on the tuple name (no name = unnamed tuples
        only), the arity and every field label (spec "Tuple types": name and labels are part of
-       the type).  Two loose examples of the spec (l.323 "Rename during binding", l.336
-       "Succeeds if x=0") do not fit any label-respecting reading; reported.
+       the type).  Resolved ambiguity (spec example vs spec text/tests, ruled by the
+       coordinator): two loose examples of the spec, l.323 `[x: a, y: b] = Point[x: 10, y: 20]`
+       ("Rename during binding") and l.336 `Point[x: 0, y] = Point[0, 10]` ("Succeeds if x=0"),
+       do not fit any label-respecting reading and are contradicted by the Types section, by
+       equality and by quiver-tests/tests/assignment.rs; both evaluate to [] here.
    R3  After a FAILED match the pattern's (static) binders are in scope and hold nil (spec: "any
        variables the pattern binds are in scope afterwards"; it does not say which value they
        have after a failure; nil is the only value the language has for "absent").
